@@ -164,10 +164,8 @@ def always_variant(crate, an, fx, X, want):
     return False
 
 
-_always = {}
-
-
 def always_returns(crate, fpath, want):
+    _always = crate.__dict__.setdefault("_always_cache", {})
     key = (fpath, want)
     if key in _always:
         return _always[key]
